@@ -7,6 +7,7 @@ mod refmodel;
 mod report;
 mod rng;
 mod mesh;
+mod cell;
 mod spy;
 
 use report::{Mon, RunInfo};
